@@ -61,6 +61,12 @@ def _gen_noisy(rng, dims, nsteps, measure=False):
                     s = cands[int(rng.integers(len(cands)))]
                     steps.append({"t": "K", "spec": s.name, "p": s.sample(rng), "w": wires})
                     break
+        elif rng.random() < 0.3 and all(d == 2 for d in dims):
+            # a joint Pauli measurement: projects onto an eigenspace of the product and generally leaves the qubits entangled
+            k = int(rng.integers(1, min(n, 3) + 1))
+            wires = tuple(int(w) for w in rng.choice(n, size=k, replace=False))
+            steps.append({"t": "PM", "key": "k%d" % len(steps), "w": wires, "paulis": "".join(rng.choice(list("XYZ"), size=k)),
+                          "coef": int(rng.choice([1, -1]))})
         else:
             wires = tuple(int(w) for w in rng.choice(n, size=int(rng.integers(1, min(n, 2) + 1)), replace=False))
             steps.append({"t": "M", "key": "k%d" % len(steps), "w": wires})
@@ -143,9 +149,9 @@ def sec_dm_measure(ctx, rng, case):
 
     dims = P.pick_dims(rng, nmax=3, qudit_p=0.2, dmax_total=12)
     steps = _gen_noisy(rng, dims, int(rng.integers(2, 8)), measure=True)
-    if not any(s["t"] == "M" for s in steps):
+    if not any(s["t"] in ("M", "PM") for s in steps):
         steps.append({"t": "M", "key": "z", "w": (0,)})
-    nm = sum(len(s["w"]) for s in steps if s["t"] == "M")
+    nm = sum(len(s["w"]) if s["t"] == "M" else 1 for s in steps if s["t"] in ("M", "PM"))
     if nm > 5:
         return
     qubits = P.make_qubits(rng, dims)
